@@ -18,6 +18,11 @@ open Avra Avra.Model Avra.Peg
 theorem grammar_pinned :
     Gen.grammarDigest = 115084982185932045 ∧ Gen.prefixSpace = true ∧ Gen.atomsAsModelled = true := by decide
 
+/-- the directive names are the ones the real `document::directive` recognises (extracted by
+    executing it on every variant of `enum Directive` and on decoys), and `#name` reads like
+    `.name` -/
+theorem directives_extracted : Gen.hashLikeDot = true ∧ Gen.directiveTable.length = 37 := by decide
+
 /-! ### blanks and tabs -/
 
 def blanks (ws : Str) : Prop := ∀ c ∈ ws, isSpace c = true
